@@ -526,8 +526,195 @@ def r5_groups_are_groupby_groups(repo=None):
     return r
 
 
+def r6_joining_writer_refuses_other_parameters(repo=None):
+    """'Writer and reader agree on every sample's location': the reader takes rate, cadences and file-name prefix from the stored
+    properties of the channel, the writer from its constructor arguments.  They agree across sessions only if a writer that is
+    created on an existing channel refuses arguments that differ from the stored ones.  Checked: (a) the constructor reaches the
+    method that compares with the stored properties whenever a properties file is readable; (b) that method raises on `!=` for
+    every attribute the placement reads (the self attributes read by the per-file generator)."""
+    r = Rule("C13.R6", "a writer joining an existing channel refuses rate, cadences or prefix that differ from the stored ones")
+    ro = dmdroles.roles(repo)
+    m = ro.m if hasattr(ro, "m") else pyfront.mod("digital_metadata", repo)
+    W = ro.gen.split(".")[0]
+    meths = m.methods(W)
+    gen_fn = ro.gen_view.fn()
+    need = sorted({x.attr for x in ast.walk(gen_fn) if isinstance(x, ast.Attribute) and isinstance(x.value, ast.Name) and x.value.id == "self"
+                   and isinstance(x.ctx, ast.Load) and x.attr.startswith("_") and not isinstance(getattr(x, "_parent", None), ast.Call)
+                   and x.attr not in meths and x.attr != "_metadata_dir"})
+    # methods handed on as callables (`groupby(samples, self._file_index)`) are part of the placement as well
+    for x in ast.walk(gen_fn):
+        if isinstance(x, ast.Attribute) and isinstance(x.value, ast.Name) and x.value.id == "self" and x.attr in meths and x.attr != ro.gen.split(".")[1]:
+            need = sorted(set(need) | {y.attr for y in ast.walk(meths[x.attr]) if isinstance(y, ast.Attribute) and isinstance(y.value, ast.Name)
+                                       and y.value.id == "self" and isinstance(y.ctx, ast.Load) and y.attr.startswith("_") and y.attr not in meths
+                                       and y.attr != "_metadata_dir"})
+    # only what the constructor takes from its arguments is a *parameter* of the channel (remembered state is not compared)
+    init0 = meths.get("__init__")
+    iparams = {a.arg for a in init0.args.args + init0.args.kwonlyargs} - {"self"} if init0 is not None else set()
+    from_args = set()
+    for a_ in ast.walk(init0) if init0 is not None else []:
+        if isinstance(a_, ast.Assign) and any(isinstance(x, ast.Name) and x.id in iparams for x in ast.walk(a_.value)):
+            for t_ in a_.targets:
+                if isinstance(t_, ast.Attribute) and isinstance(t_.value, ast.Name) and t_.value.id == "self":
+                    from_args.add(t_.attr)
+    need = [a_ for a_ in need if a_ in from_args]
+    if len(need) < 4:
+        raise AnalysisError("%s: attributes read by the placement not recognised (%s)" % (ro.gen, need))
+    parse = [n for n, f in meths.items() if n != "__init__" and any(isinstance(c, ast.Call) and (pyfront.call_name(c) or "").endswith("DigitalMetadataReader")
+                                                                    for c in ast.walk(f))]
+    if len(parse) != 1:
+        raise AnalysisError("%s: the method comparing with the stored properties (constructs a DigitalMetadataReader) not found exactly once (%s)" % (W, parse))
+    pf = meths[parse[0]]
+    q = "%s.%s" % (W, parse[0])
+    # attributes compared with `!=` under a raise
+    compared = set()
+    for iff in ast.walk(pf):
+        if not (isinstance(iff, ast.If) and any(isinstance(x, ast.Raise) for x in ast.walk(iff))):
+            continue
+        for cmp_ in ast.walk(iff.test):
+            if isinstance(cmp_, ast.Compare) and len(cmp_.ops) == 1 and isinstance(cmp_.ops[0], ast.NotEq):
+                for side in (cmp_.left, cmp_.comparators[0]):
+                    if isinstance(side, ast.Name):
+                        # a local holding `getattr(self, attr)` / `self.<attr>`
+                        ds = [a_.value for a_ in ast.walk(pf) if isinstance(a_, ast.Assign) and len(a_.targets) == 1 and isinstance(a_.targets[0], ast.Name)
+                              and a_.targets[0].id == side.id]
+                        if len(ds) == 1:
+                            side = ds[0]
+                    if isinstance(side, ast.Attribute) and isinstance(side.value, ast.Name) and side.value.id == "self":
+                        compared.add(side.attr)
+                    elif isinstance(side, ast.Call) and pyfront.call_name(side) == "getattr" and len(side.args) == 2 and isinstance(side.args[0], ast.Name) \
+                            and side.args[0].id == "self" and isinstance(side.args[1], ast.Name):
+                        # getattr(self, attr) for attr in <tuple of constants>
+                        lp = m.enclosing(iff, (ast.For,))
+                        while lp is not None and not (isinstance(lp.target, ast.Name) and lp.target.id == side.args[1].id):
+                            lp = m.enclosing(lp, (ast.For,))
+                        if lp is not None:
+                            it = lp.iter
+                            if isinstance(it, ast.Name):
+                                defs = [a.value for a in ast.walk(pf) if isinstance(a, ast.Assign) and any(isinstance(t, ast.Name) and t.id == it.id for t in a.targets)]
+                                if not defs:
+                                    mv = m.module_assign(it.id)
+                                    defs = [mv] if mv is not None else []
+                                it = defs[0] if len(defs) == 1 else it
+                            if isinstance(it, (ast.Tuple, ast.List)) and all(isinstance(e, ast.Constant) and isinstance(e.value, str) for e in it.elts):
+                                compared |= {e.value for e in it.elts}
+                            else:
+                                from .. import pyutil
+                                try:
+                                    val = pyutil.const_value(m, it)
+                                except pyutil.NotConstant:
+                                    val = None
+                                if isinstance(val, tuple) and all(isinstance(x, str) for x in val):
+                                    compared |= set(val)
+    if not compared:
+        raise AnalysisError("%s: comparisons with the stored properties not recognised" % q)
+    missing = [a for a in need if a not in compared]
+    site = "%s:%s %s" % (m.rel, pf.lineno, q)
+    if missing:
+        r.violation(m.rel, q, "compares %s" % sorted(compared), "a writer created on an existing channel is not refused when its %s differ(s) from the "
+                    "stored value: it files samples by its own arguments while every reader looks for them by the stored ones" % ", ".join(missing),
+                    line=pf.lineno)
+    else:
+        r.ok(site, "raises when any of %s differs from the stored properties" % ", ".join(need))
+    # (a) reached from the constructor when a properties file is readable
+    init = meths.get("__init__")
+    g = m.cfg(W + ".__init__")
+    calls = [n for n in g.nodes if any(pyfront.call_name(c) == "self." + parse[0] for c in pyfront.node_calls(n))]
+    writes = [n for n in g.nodes if any((pyfront.call_name(c) or "").startswith("self._write_prop") or (pyfront.call_name(c) or "") == "h5py.File" for c in pyfront.node_calls(n))]
+    if not calls:
+        r.violation(m.rel, W + ".__init__", "no call of self.%s" % parse[0], "the stored properties of an existing channel are never compared", line=init.lineno)
+    else:
+        conds = [n for n in g.nodes if n.kind == "cond" and n.ast is not None and any(
+            isinstance(c, ast.Call) and pyfront.call_name(c) in ("os.access", "os.path.exists", "os.path.isfile") for c in ast.walk(n.ast))
+            and calls[0].id in g.reach([b for b, l in g.succ[n.id] if l == "T"], avoid=[n.id])]
+        if conds:
+            r.ok("%s:%s %s.__init__" % (m.rel, calls[0].line, W), "self.%s() runs whenever a properties file is found" % parse[0])
+        else:
+            raise AnalysisError("%s.__init__: the test that leads to self.%s() was not recognised" % (W, parse[0]))
+    r.guard(2)
+    return r
+
+
+def r7_reader_probes_each_subdir_with_its_own_times(repo=None):
+    """'the reader looks for it in exactly that file', for every sub-directory of a query: the names probed in one iteration of the
+    reader's loop over the sub-directory times must be a function of that iteration's own time.  A value in the backward slice of
+    the probed path that is *carried* from one iteration to the next (defined before the loop, advanced inside it by an update
+    that reads itself) is right only if no path through the loop body reaches the next iteration without the update - a
+    `continue` for a sub-directory that does not exist leaves it one step behind, and every later sub-directory is probed with
+    the file times of an earlier one."""
+    r = Rule("C13.R7", "the reader's candidate names depend on nothing carried past a skipped iteration of the sub-directory loop")
+    ro = dmdroles.roles(repo)
+    fv = ro.filelist_view
+    f = fv.fn()
+    g = fv.cfg()
+    q = ro.filelist
+    rets = {x.value.id for x in ast.walk(f) if isinstance(x, ast.Return) and isinstance(x.value, ast.Name)}
+    loops = [lp for lp in ast.walk(f) if isinstance(lp, ast.For) and any(
+        isinstance(c, ast.Call) and isinstance(c.func, ast.Attribute) and c.func.attr in ("append", "extend") and isinstance(c.func.value, ast.Name)
+        and c.func.value.id in rets for c in ast.walk(lp))]
+    loops = [l for l in loops if not any(l is not o and any(x is l for x in ast.walk(o)) for o in loops)]      # outermost
+    if len(loops) != 1:
+        raise AnalysisError("%s: the loop that collects the candidate files was not found exactly once (%d)" % (q, len(loops)))
+    lp = loops[0]
+    # backward slice of what is appended / probed inside the loop
+    inner = {}
+    for n in ast.walk(lp):
+        if isinstance(n, (ast.Assign, ast.AugAssign)):
+            tg = n.targets if isinstance(n, ast.Assign) else [n.target]
+            for t in tg:
+                for x in ast.walk(t):
+                    if isinstance(x, ast.Name) and isinstance(x.ctx, ast.Store):
+                        inner.setdefault(x.id, []).append(n)
+        elif isinstance(n, ast.For) and n is not lp:
+            for x in ast.walk(n.target):
+                if isinstance(x, ast.Name):
+                    inner.setdefault(x.id, []).append(n)
+    work = []
+    for c in ast.walk(lp):
+        if isinstance(c, ast.Call) and ((isinstance(c.func, ast.Attribute) and c.func.attr in ("append", "extend") and isinstance(c.func.value, ast.Name)
+                                         and c.func.value.id in rets) or pyfront.call_name(c) in ("os.access", "os.path.exists", "os.path.isfile")):
+            work += [x.id for a in c.args for x in ast.walk(a) if isinstance(x, ast.Name)]
+    seen = set()
+    while work:
+        v = work.pop()
+        if v in seen:
+            continue
+        seen.add(v)
+        for d in inner.get(v, []):
+            src = d.value if isinstance(d, (ast.Assign, ast.AugAssign)) else d.iter
+            work += [x.id for x in ast.walk(src) if isinstance(x, ast.Name)]
+            if isinstance(d, ast.AugAssign):
+                work.append(v)
+    head = [n for n in g.nodes if n.kind == "cond" and n.ast is lp]
+    if len(head) != 1:
+        raise AnalysisError("%s: loop head not found in the control-flow graph" % q)
+    body_entry = [b for b, l in g.succ[head[0].id] if l == "T"]
+    n_checked = 0
+    for v in sorted(seen):
+        ups = [d for d in inner.get(v, []) if isinstance(d, ast.AugAssign) or (
+            isinstance(d, ast.Assign) and any(isinstance(x, ast.Name) and x.id == v for x in ast.walk(d.value)))]
+        fresh = [d for d in inner.get(v, []) if d not in ups]
+        if not ups:
+            continue
+        n_checked += 1
+        upn = [n.id for n in g.nodes if n.ast is not None and any(n.ast is d for d in ups + fresh)]
+        skipping = head[0].id in g.reach(body_entry, avoid=upn + [head[0].id] if False else upn, skip_labels=("exc",)) if body_entry else False
+        site = "%s:%s %s `%s`" % (fv.module.rel if hasattr(fv, "module") else "python/digital_rf/digital_metadata.py", ups[0].lineno, q, norm(ast.unparse(ups[0]))[:60])
+        if skipping:
+            r.violation("python/digital_rf/digital_metadata.py", q, norm(ast.unparse(ups[0]))[:70], "`%s`, from which the probed file names are computed, is "
+                        "carried from one sub-directory to the next and advanced by this statement, but an iteration can end without "
+                        "reaching it (a `continue` for a sub-directory that is not there): every later sub-directory is then probed "
+                        "with the file times of an earlier one and the files the writer stored there are not found" % v, line=ups[0].lineno)
+        else:
+            r.ok(site, "`%s` is carried across iterations, but every path through the loop body passes its update" % v)
+    if n_checked == 0:
+        r.ok("python/digital_rf/digital_metadata.py:%s %s" % (lp.lineno, q), "every value the probed names are computed from (%d locals in the slice) is defined "
+             "afresh in the iteration or before the loop and never updated in it" % len(seen))
+    r.guard(1)
+    return r
+
+
 def rules(repo=None):
-    return [lambda: r1_exact_placement(repo), lambda: r2_one_formula(repo), lambda: r3_format_agreement(repo),
+    return [lambda: r7_reader_probes_each_subdir_with_its_own_times(repo), lambda: r6_joining_writer_refuses_other_parameters(repo), lambda: r1_exact_placement(repo), lambda: r2_one_formula(repo), lambda: r3_format_agreement(repo),
             lambda: r4_subdir_per_file(repo), lambda: r5_groups_are_groupby_groups(repo)]
 
 
@@ -542,7 +729,9 @@ EXPLANATION = (
     "opened path is assigned on every iteration before the open (must-pass), and the slice reaches the group's file "
     'index. R5: the iterable of the per-file loop is the groupby result itself (or a local all of whose definitions are);'
     ' a definition that pairs the whole ungrouped input with the key of one element is reported (samples stored without '
-    'their own key being evaluated), any other definition is not decided (exit 2).')
+    'their own key being evaluated), any other definition is not decided (exit 2). R6: the writer method that reads the '
+    'stored properties of an existing channel raises on `!=` for every attribute the per-file generator reads (rate, '
+    'cadences, prefix), and the constructor reaches it whenever a properties file is found.')
 TECHNIQUE = ("Python ast; float-taint dataflow; symbolic straight-line evaluation + canonical form of nested floor divisions "
              "(writer/reader sibling agreement); CFG must-pass over the backward slice; regular-language algebra")
 ASSUMPTIONS = ["Python int arithmetic is exact; floor(floor(x/a)/b) = floor(x/(a*b)) for positive integers",
